@@ -324,7 +324,13 @@ def op_readback(case, o):
         data = dec_seq(ctor[2], dt)
         lens = [int(x) for x in ctor[3]]
         lk = o.get("lkind", "list")
-        shape = lens if lk == "list" else RaggedShape(lens) if lk == "shape" else np.array(lens, dtype=int) if lk == "array" else (len(lens), np.array(lens, dtype=int))
+        if lk == "i1arr" and not all(l <= 127 for l in lens):
+            lk = "array"
+        if lk == "boolarr" and not all(l <= 1 for l in lens):
+            lk = "array"
+        shape = lens if lk == "list" else RaggedShape(lens) if lk == "shape" else np.array(lens, dtype=int) if lk == "array" else \
+            np.array(lens, dtype=np.int8) if lk == "i1arr" else np.array(lens, dtype=np.uint16) if lk == "u2arr" else \
+            np.array(lens, dtype=bool) if lk == "boolarr" else (len(lens), np.array(lens, dtype=int))   # row lengths in any integer dtype
         a = RaggedArray(data, shape, dtype=DT2NP[dt])
     elif k == "matrix":
         dt = ctor[1]
